@@ -358,6 +358,19 @@ static bool c03_shapes(int prov, int w, int W) {
       shapes.push_back(in + "." + third + ".x.y");                            // 5+
     }
   }
+  // more than three segments with the signature computed over everything before the LAST dot (a parser that looks for the last dot
+  // instead of the second), and payload segments that carry '=' padding (decoding stops there: what follows up to the next dot is unseen)
+  for (const char *alg : std::vector<const char *>{"\"none\"", "\"HS256\"", "\"ES256\""}) {
+    std::string hj = std::string("{\"alg\":") + alg + "}";
+    for (const std::string &P : {b64u_enc(PAYLOAD), std::string("e30="), std::string("e30=="), std::string("eyAgfQ=="), std::string("eyAgfQ="), std::string("e30")}) {
+      std::string in2 = b64u_enc(hj) + "." + P;
+      shapes.push_back(in2 + "."); shapes.push_back(in2 + "." + b64u_enc(ref_sign(ok64, JWT_ALG_HS256, in2))); shapes.push_back(in2 + "." + b64u_enc(ref_sign(ec, JWT_ALG_ES256, in2)));
+      for (const std::string &third : {std::string(""), std::string("abc"), std::string("AAAA"), std::string("x"), std::string("AAAA.BB")}) {
+        std::string pre = in2 + "." + third;
+        shapes.push_back(pre + "."); shapes.push_back(pre + "." + b64u_enc(ref_sign(ok64, JWT_ALG_HS256, pre))); shapes.push_back(pre + "." + b64u_enc(ref_sign(ec, JWT_ALG_ES256, pre)));
+      }
+    }
+  }
   int idx = 0;
   for (int cfg = 0; cfg < 5; cfg++) {
     for (auto &tok : shapes) {
@@ -386,6 +399,7 @@ static bool c03_shapes(int prov, int w, int W) {
         if (ret == 0 && (tp.s.empty() || !ha || an == "none" || !ref_valid(*ks, tok)))
           ok = !st.violation("C03:keyed-checker-accepts-unsigned-shape", "checker with key accepted token with empty signature / alg none / invalid signature", rj) && ok;
       } else {
+        if (tp.p.find('=') != std::string::npos) st.cls("shapes-with-padded-payload-segment");   // (the lenient reference decoder stops at the first '=' as the library does)
         bool want = tp.ok && ha && an == "none" && tp.s.empty() && tp.p_ok && J::parse(tp.pdec, JSON_DECODE_ANY | JSON_ALLOW_NUL);
         if ((ret == 0) != want)
           ok = !st.violation(std::string("C03:nokey-checker-") + (ret == 0 ? "accepts-non-none-shape" : "rejects-plain-none-token"), "checker without key: verdict differs from (alg exactly none AND empty third segment)", rj) && ok;
